@@ -875,3 +875,34 @@ func vC05Boundary(r *vRng) []*vC05Node {
 	out = append(out, nums)
 	return out
 }
+
+// a receiver of the given type that already holds a (non-default) value
+func vC05DirtyReceiver(kind int) Amf0 {
+	switch kind {
+	case vC05Num:
+		return NewNumber(1.5)
+	case vC05Bool:
+		return NewBoolean(true)
+	case vC05Str:
+		return NewString("live")
+	case vC05Null:
+		return NewNull()
+	case vC05Undef:
+		return NewUndefined()
+	case vC05Obj:
+		o := NewObject()
+		o.Set("old", NewString("value"))
+		o.Set("a", NewNull())
+		return o
+	case vC05Ecma:
+		o := NewEcmaArray()
+		o.Set("old", NewNumber(7))
+		return o
+	case vC05Strict:
+		o := NewStrictArray()
+		o.Set("old", NewNull())
+		o.Set("b", NewNull())
+		return o
+	}
+	return nil
+}
